@@ -11,7 +11,7 @@ targets against a plain loop.
 """
 import itertools
 
-from glom import glom, Path, T, S, Spec, PathAccessError, assign, delete, Assign, Delete
+from glom import glom, Path, T, S, Spec, Val, PathAccessError, assign, delete, Assign, Delete
 
 from .. import objs
 from ..engine import R, Sub
@@ -555,6 +555,67 @@ def run_overflow(case):
     return R(None, 'ok', steps=len(res) + n_fill)
 
 
+# ---------------------------------------------------------------------------
+# a step whose key is itself a spec, directly after a wildcard: evaluated against each entry separately
+
+SPECKEY_TARGETS = {
+    'rows-pick-own-key': lambda: {'rows': [{'pick': 'a', 'a': [1], 'b': [10]}, {'pick': 'b', 'a': [2], 'b': [20]}, {'pick': 'zz', 'a': [3]}, {'a': [4]}]},
+    'rows-same-key': lambda: {'rows': [{'pick': 'a', 'a': [1]}, {'pick': 'a', 'a': [2]}]},
+    'nested': lambda: {'rows': {'u': {'pick': 'a', 'a': {'pick': 'b', 'b': [7]}}, 'v': {'pick': 'q'}}},
+    'lists-pick-index': lambda: {'rows': [[1, 'x', 'y'], [2, 'x', 'y'], [9, 'x']]},
+}
+def _pick_or_nope(e):
+    return e['pick'] if isinstance(e, dict) and 'pick' in e else 'nope'
+
+
+SPECKEY_KEYS = {   # name -> (spec in key position, reference: entry -> key)
+    'T-pick': (lambda: T['pick'], lambda e: e['pick']),
+    'Spec-pick': (lambda: Spec('pick'), lambda e: e['pick']),
+    'Val-a': (lambda: Val('a'), lambda e: 'a'),
+    'T-0': (lambda: T[0], lambda e: e[0]),
+    # (an exception of the function itself is the caller's and passes through the wildcard: the function here never raises)
+    'callable-Spec': (lambda: Spec(_pick_or_nope), lambda e: _pick_or_nope(e)),
+}
+
+
+def run_speckey(case):
+    tname, kname, wild, spelling, tail = case
+    target = SPECKEY_TARGETS[tname]()
+    mk, key_of = SPECKEY_KEYS[kname]
+    entries = children(target['rows']) if wild == '*' else descend(target['rows'])
+    want = []
+    for e in entries:
+        try:
+            v = e[key_of(e)]
+            if tail:
+                v = v[0]
+            want.append(v)
+        except Exception:
+            pass
+    star = (lambda t: t.__star__()) if wild == '*' else (lambda t: t.__starstar__())
+    if spelling == 'T':
+        spec = star(T['rows'])[mk()]
+        spec = spec[0] if tail else spec
+    elif spelling == 'S':
+        spec = star(S['v']['rows'])[mk()]
+        spec = spec[0] if tail else spec
+    else:
+        inner = star(T)[mk()]
+        spec = Path('rows', inner[0] if tail else inner)
+    try:
+        got = glom(target, spec) if spelling != 'S' else glom(None, spec, scope={'v': target})
+    except Exception as e:
+        return R({'expected': show(want, 1), 'observed': repr(e), 'spec': repr(spec), 'target': tname}, 'speckey-exc')
+    if not same_shape(want, got, 1):
+        return R({'expected': show(want, 1), 'observed': show(got, 1), 'spec': repr(spec), 'target': tname}, 'speckey')
+    return R(None, 'n=%d' % min(len(want), 3), nontrivial=len(want) > 0, steps=len(entries), tags={kname, wild})
+
+
+def gen_speckey():
+    return [[t, k, w, sp, tail] for t in sorted(SPECKEY_TARGETS) for k in sorted(SPECKEY_KEYS) for w in ('*', '**') for sp in ('T', 'S', 'path')
+            for tail in (False, True)]
+
+
 def subs(tier, only=None):
     from ..engine import fast_tracebacks
     fast_tracebacks()
@@ -569,6 +630,10 @@ def subs(tier, only=None):
         Sub('wildcard-mutation', gen_mutate(tier), run_mutate,
             rule='case = (tree-shaped target, wildcard path, assign|delete, function|spec form) against a plain loop',
             min_nontrivial=10, min_outcomes=2, required_tags=['assign', 'delete']),
+        Sub('spec-valued-step-after-wildcard', gen_speckey(), run_speckey,
+            rule='case = (rows whose entries name their own key, key spec T[..] | Spec | Val | callable, * | **, T | S | Path spelling, with/without a further step): '
+                 'the key is evaluated against each entry separately; entries where it or the access fails are left out',
+            min_nontrivial=100, min_outcomes=3, required_tags=['T-pick', '**']),
         Sub('wildcards-after-cache-overflow', [[0, ['a.*.z', '**.z', 'a.*.*']], [10050, ['a.*.z', '**.z', 'a.*.*', '*.y.w.*']], [10050, ['a.**', '*']]],
             run_overflow, rule='case = (number of distinct path strings parsed first, fresh wildcard texts): the text spelling must still equal the T spelling '
                                'once the path-text cache (bound 10000) is full; each case in a forked child', min_nontrivial=2, min_outcomes=1, parallel=False,
